@@ -592,3 +592,59 @@ Proof.
   - apply (XR_prune' 4 2 _ _ _ _ _ 5 7 R5). reflexivity.
   - vm_compute. repeat split; reflexivity.
 Qed.
+
+(* ------------------------------------------------------------------ a caller of Save outside these histories: Rollback (finding F73)
+
+   state/rollback.go Rollback (the `tendermint rollback` command) saves a state that is NOT a
+   successor of the last saved one: LastBlockHeight - 1, NextValidators = the Validators of the
+   state it undoes, and LastHeightValidatorsChanged clamped by
+
+       if valChangeHeight > rollbackHeight { valChangeHeight = rollbackHeight + 1 }
+
+   save() then rewrites the validator record of height rollbackHeight + 2 with that change height,
+   which is one too low whenever the validators of rollbackHeight + 2 differ from those of
+   rollbackHeight + 1 or the undone block changed them: the record no longer carries its set and
+   points at a record that has none.  The resulting database does not have the shape, and
+   LoadValidators fails for that height (and, after the node goes on, for every later height up
+   to the next change).  Replayed on the real code: "couldn't find validators at height 4
+   (height 5 was originally requested)".  With the clamp at rollbackHeight + 2
+   (fixes/F73-rollback-validators-change-height.diff; [off] = 2) the lookup succeeds. *)
+Definition rollback_state (off : Z) (d : sdb) (st : sstate) (last_vals : Z) : sstate :=
+  let rb := s_last st - 1 in
+  {| s_last := rb; s_initial := s_initial st; s_vals := last_vals; s_next_vals := s_vals st;
+     s_lhvc := if s_lhvc st >? rb + (off - 1) then rb + off else s_lhvc st;
+     s_params := match load_consensus_params d (rb + 1) with Some (Some p) => p | _ => 0 end;
+     s_lhpc := if s_lhpc st >? rb then rb + 1 else s_lhpc st |}.
+
+Definition rst (last vals nvals lhvc : Z) : sstate :=
+  {| s_last := last; s_initial := 1; s_vals := vals; s_next_vals := nvals; s_lhvc := lhvc;
+     s_params := 8; s_lhpc := 1 |}.
+
+(* initial height 1, checkpoint interval 100; block 3 changes the validators (hash 1 -> 2 from
+   height 5); after block 4 the state is rolled back to height 3 *)
+Theorem C18_rollback_save_refuted :
+  exists hist st d,
+    SReach 100 1000 hist st 1 d /\ s_last st = 4 /\
+    load_validators 100 d 5 = Some 2 /\
+    (let rb := rollback_state 1 d st 1 in
+     rb = rst 3 1 2 4 /\
+     load_vals_info (sreplay (fst (state_save 100 rb)) d) 5 = Some (4, None) /\
+     load_vals_info (sreplay (fst (state_save 100 rb)) d) 4 = Some (1, None) /\
+     load_validators 100 (sreplay (fst (state_save 100 rb)) d) 5 = None) /\
+    (let rb := rollback_state 2 d st 1 in
+     rb = rst 3 1 2 5 /\
+     load_validators 100 (sreplay (fst (state_save 100 rb)) d) 5 = Some 2).
+Proof.
+  assert (Hg : genesis_state (rst 0 1 1 1)) by (unfold genesis_state; cbn; repeat split; lia).
+  pose proof (SR_genesis 100 1000 _ [] Hg) as R0.
+  assert (S1 : successor (rst 0 1 1 1) (rst 1 1 1 1)) by succ_tac.
+  pose proof (SR_save 100 1000 _ _ _ _ _ R0 S1) as R1.
+  assert (S2 : successor (rst 1 1 1 1) (rst 2 1 1 1)) by succ_tac.
+  pose proof (SR_save 100 1000 _ _ _ _ _ R1 S2) as R2.
+  assert (S3 : successor (rst 2 1 1 1) (rst 3 1 2 5)) by succ_tac.
+  pose proof (SR_save 100 1000 _ _ _ _ _ R2 S3) as R3.
+  assert (S4 : successor (rst 3 1 2 5) (rst 4 2 2 5)) by succ_tac.
+  pose proof (SR_save 100 1000 _ _ _ _ _ R3 S4) as R4.
+  eexists. eexists. eexists. split; [exact R4|]. vm_compute. repeat split; reflexivity.
+Qed.
+Print Assumptions C18_rollback_save_refuted.
